@@ -12,5 +12,5 @@ t /tmp/wt2-C05-out 1 R2-C05-reopen-drops-newline C05
 t /tmp/wt2-C07-out 2 R2-C07-reopen-drops-newline C07 C04
 t /tmp/wt2-C14-out 1 R2-C14-merge-before-validate C14
 t /tmp/wt2-C14-out 2 R2-C14-kwargs-checked-by-truthiness C14
-t /tmp/wt2-C10-out 1 R2-C10-first C10
-t /tmp/wt2-C10-out 2 R2-C10-second C10
+t /tmp/wt2-C10-out 1 R2-C10-timestamps-time-sorted C10 C07
+t /tmp/wt2-C10-out 2 R2-C10-update-measurements-falsy-zero C10 C06
